@@ -293,9 +293,58 @@ def _corrupt(rng, s, k, alphabet):
     return "".join(t)
 
 
+def _foreign_hrps(rng, hrp):
+    """true HRPs that are NOT `hrp` but resemble it: the separator is the LAST '1', so `hrp + "1" + anything` is a
+    different HRP whose address merely starts with `hrp + "1"`; prefixes, suffixes, case variants, odd characters"""
+    hchars = "".join(chr(c) for c in range(33, 127) if not (65 <= c <= 90))
+    out = [hrp + "1", hrp + "1q", hrp + "1p", hrp + "1" + hrp, hrp + "11", hrp + "1" + hrp + "1", hrp + "q", hrp + hrp,
+           "1" + hrp, "x" + hrp, hrp + "1" + "".join(rng.choice(hchars + "111") for _ in range(rng.randint(1, 6))),
+           hrp + "".join(rng.choice(hchars + "11") for _ in range(rng.randint(1, 4))),
+           "".join(rng.choice(hchars) for _ in range(max(1, len(hrp))))]
+    for k in range(1, len(hrp)):
+        out.append(hrp[:k])                       # proper prefixes
+        out.append(hrp[k:])                       # proper suffixes
+    if hrp.upper() != hrp:
+        out.append(hrp.upper())
+        out.append(hrp[0].upper() + hrp[1:])
+    if hrp.lower() != hrp:
+        out.append(hrp.lower())
+    return [h for h in dict.fromkeys(out) if h and h != hrp and len(h) <= 40]
+
+
+def _foreign_hrp_strings(rng, tier, hrps=None):
+    """(expected hrp, string): checksum-valid Bech32 AND Bech32m strings (built with the harness's own checksum code) of
+    a foreign HRP resembling the expected one; otherwise perfectly acceptable payloads, so only the HRP comparison can
+    reject them.  Also prefix-HRPs whose data part starts with the symbols that continue the expected hrp."""
+    out = []
+    for hrp in (hrps or HRPS):
+        for other in _foreign_hrps(rng, hrp):
+            progs = [(0, bytes(rng.getrandbits(8) for _ in range(20))), (1, bytes(rng.getrandbits(8) for _ in range(32))),
+                     (16, bytes([1, 2]))]
+            if tier == "thorough":
+                progs += [(0, bytes(32)), (2, bytes(rng.getrandbits(8) for _ in range(rng.randint(2, 40))))]
+            for ver, prog in progs:
+                d5 = [ver] + ref_to5(prog)
+                good = 1 if ver == 0 else M_CONST
+                for const in (good, 1 ^ M_CONST ^ good):
+                    st = ref_bech32_string(other, d5, const)
+                    if len(st) <= 90:
+                        out.append((hrp, st))
+                        if const == good and rng.random() < 0.3:
+                            out.append((hrp, st.upper()))
+                            out.append((other, st))            # and it IS valid for its own hrp
+            # a prefix HRP whose data continues with the rest of the expected hrp (where those are charset characters)
+            if hrp.startswith(other) and all(c in B32 for c in hrp[len(other):]):
+                rest = [B32.index(c) for c in hrp[len(other):]]
+                for ver, n in ((0, 20), (1, 20)):
+                    d5 = rest + [ver] + ref_to5(bytes(rng.getrandbits(8) for _ in range(n)))
+                    out.append((hrp, ref_bech32_string(other, d5, 1 if rest[0] == 0 else M_CONST)))
+    return out
+
+
 def _bech_strings(rng, tier):
     """(hrp, string) pairs: valid, wrong constant, bad length / padding, case, corruptions, junk"""
-    out = []
+    out = list(_foreign_hrp_strings(rng, tier))
     triples = list(_valid_triples(rng, tier))
     for hrp, ver, prog in triples:
         s = ref_segwit_encode(hrp, ver, prog)
@@ -335,6 +384,13 @@ def _bech_strings(rng, tier):
         out.append((hrp, s[:5] + "\x7f" + s[6:]))
         out.append((hrp, s[:5] + "b" + s[6:]))
         out.append((hrp, s[:6] + "ı" + s[7:]))
+        for odd, plain in (("\u212a", "k"), ("\u017f", "s"), ("\u0130", "i"), ("\uff41", "a"), ("\u00b9", "1")):
+            for form in (s, s.upper()):                     # KELVIN SIGN.lower() == 'k', LONG S.upper() == 'S', ...
+                j = form.lower().find(plain, len(hrp) + 1)
+                if j >= 0:
+                    out.append((hrp, form[:j] + odd + form[j + 1:]))
+            out.append((hrp, s[:len(hrp)] + odd + s[len(hrp) + 1:]))
+            out.append((hrp + odd, ref_bech32_string(hrp + plain, [1] + ref_to5(bytes(20)), M_CONST).replace(hrp + plain, hrp + odd, 1)))
         out.append((hrp, s[:len(hrp) + 3] + "1" + s[len(hrp) + 4:]))
     alpha = B32 + "1bioBQ"
     n1 = 3 if tier == "quick" else 40
@@ -804,6 +860,11 @@ def search(rng, tier, disagreements, known_ids):
             elif fn == "decode":
                 hrp, s = toks_str(toks[1]), toks_str(toks[2])
                 cands.append(_pc("segwit_string", {"hrp": hrp, "s": cps(s)}, (lambda hrp=hrp, s=s: chk_segwit_string(hrp, s))))
+                true_hrp = s.lower().rpartition("1")[0]
+                for h in {hrp, true_hrp, true_hrp.partition("1")[0]}:
+                    if h and all(33 <= ord(c) <= 126 for c in h):
+                        for h2, s2 in _foreign_hrp_strings(rng, "quick", [h]):
+                            cands.append(_pc("segwit_string", {"hrp": h2, "s": cps(s2)}, (lambda h2=h2, s2=s2: chk_segwit_string(h2, s2))))
             elif fn in ("bech32_decode", "parse_bech32", "parse_bech32_or_32m"):
                 s = toks_str(toks[1])
                 hrp = s.lower().rpartition("1")[0]
